@@ -819,14 +819,17 @@ def conn_reconnect(rng, T):
     dev1 = {"type": "scripted", "latency": 0.02, "unsolicited": u1, "chunk": rng.randrange(1, 10 ** 6)}
     how = rng.choice(["eof", "close", "close"])
     if how == "eof":
-        dev1["eof_after_bytes"] = rng.randint(41, max(42, nbytes - 1))     # the link ends inside a line (or between lines)
+        # the link ends inside a line (or between lines) — also inside one of the two probe replies
+        dev1["eof_after_bytes"] = rng.randint(41, max(42, nbytes - 1)) if rng.random() < 0.6 else rng.randint(1, 39)
         ops = [["sleep", t1 + 6.0]]
     else:
         # a planned close() while the last line has arrived only in part: the receiver is cut off by the close
         u1.append([round(t1 + 0.2, 3), "partial:@MAIN:VOL=-3"])
         ops = [["sleep", t1 + 1.0], ["close"], ["sleep", 3.0]]
-    u2, t2 = stream(0.4)
+    u2, t2 = stream(rng.choice([0.4, 0.4, 0.03]))
     dev2 = {"type": "scripted", "latency": 0.02, "unsolicited": u2, "chunk": rng.randrange(1, 10 ** 6)}
+    if rng.random() < 0.35:
+        dev2["swallow_first"] = 1          # the wake-up probe is lost on a sleeping receiver
     ops += [["reconnect"], ["sleep", t2 + 3.0], ["connected"]]
     return {"kind": "conn", "device": dev1, "reconnect_device": dev2, "log_size": 0, "threads": [ops], "pre_register": [1], "final_wait": 0}
 
